@@ -11,6 +11,7 @@
 // attributed to the last announced id by the driver, which restarts after it).
 // Result line:  R <id> out=<done|logic|runtime|badalloc|exc|unknown> ret=<int|-> same=<0|1> msg=<text>
 #include "verif_common.h"
+#include <algorithm>
 #include <photospline/cinter/splinetable.h>
 
 static std::vector<long> plist(const std::string& s){
@@ -99,6 +100,33 @@ int main(int argc,char**argv){
       kbuf[d]=exact<double>(kl[d]);
       for(long k=0;k<kl[d];k++) kbuf[d][k]=double(k);
       if(!ks[d] && kl[d]>=2) std::swap(kbuf[d][kl[d]-1],kbuf[d][kl[d]-2]);
+    }
+    // optional VALUE placement (the lengths above are what the argument checks look at; these are values a valid call may carry):
+    //   kz=<per dim> 0 integers 0..kl-1 | 1 all knots equal (zero width, still non-decreasing) | 2 clamped: the first and the last order+1 knots coincide
+    //   cp=<per dim> 0 spread inside the knot range | 1 all above it | 2 all below it | 3 all exactly on the last knot | 4 all exactly on the
+    //                first knot | 5 the first one inside, the others above | 6 all equal, inside
+    std::vector<long> cp=plist(kv.count("cp")?kv["cp"]:std::string("-")), kz=plist(kv.count("kz")?kv["kz"]:std::string("-"));
+    for(size_t d=0;d<kl.size()&&d<kz.size();d++){
+      if(kz[d]==1) for(long k=0;k<kl[d];k++) kbuf[d][k]=2.0;
+      if(kz[d]==2 && ks[d]){
+        long o= d<od.size() ? std::min<long>(od[d],kl[d]) : 0;
+        for(long k=0;k<kl[d];k++){ long c=std::min(std::max(k,o),std::max<long>(kl[d]-1-o,o)); kbuf[d][k]=double(c); }
+      }
+    }
+    for(size_t d=0;d<cl.size()&&d<cp.size();d++){
+      double lo= d<kl.size()&&kl[d]>0 ? *std::min_element(kbuf[d],kbuf[d]+kl[d]) : 0.0;
+      double hi= d<kl.size()&&kl[d]>0 ? *std::max_element(kbuf[d],kbuf[d]+kl[d]) : 1.0;
+      for(long j=0;j<cl[d];j++){
+        switch(cp[d]){
+          case 1: cbuf[d][j]=hi+5.0+j; break;
+          case 2: cbuf[d][j]=lo-5.0-(cl[d]-j); break;
+          case 3: cbuf[d][j]=hi; break;
+          case 4: cbuf[d][j]=lo; break;
+          case 5: if(j>0) cbuf[d][j]=hi+5.0+j; break;
+          case 6: cbuf[d][j]=0.5*(lo+hi); break;
+          default: break;
+        }
+      }
     }
     uint32_t* ord=exact<uint32_t>(od.size()); for(size_t d=0;d<od.size();d++) ord[d]=(uint32_t)od[d];
     uint32_t* pord=exact<uint32_t>(po.size()); for(size_t d=0;d<po.size();d++) pord[d]=(uint32_t)po[d];
